@@ -30,6 +30,35 @@ CHECKS = {
             'Per design the uniqueness miter over the complete formula is unsat, every auxiliary is either unit-fixed or '
             'has a total+functional definition, and the sampling set the samplers read is exactly 1..support.',
             'Trusts CryptoMiniSat; trial variables = 1..variables_per_sample() (C14).', '6 C03'),
+    'C04': (OT, 'C+A', 'library-performed exhaustive enumeration of every RandomGen draw sequence (choice oracle in place of '
+                       'random.randrange) with the real rejection test; each accepted candidate judged by the reference validator',
+            'For every corpus design with <=5000/60000 candidates, every draw sequence the real RandomGen can make is '
+            'visited once through the enumerator\'s own generation methods; every accepted candidate must be a valid '
+            'sequence (trial count, derivations, crossing incl. additional crossings, every constraint).',
+            'The quantifier over random draws is exhaustive enumeration (bounded), not a solver verdict; reference '
+            'semantics vf/ref.py trusted; designs above the bound are outside.', '6 C04'),
+    'C05': (OT, 'C+A', 'exhaustive candidate enumeration + SMT set equality: R(x) & x-not-in-accepted unsat; key/sequence '
+                       'injectivity and equal draw probability over all candidates',
+            'Per design: candidate keys are distinct and as many as possible_keys, accepted candidates are distinct valid '
+            'sequences, z3 proves no valid sequence is missing, and all candidates have the same draw probability.',
+            'As C04. Known finding: draw probabilities differ when crossing combinations admit different numbers of source '
+            'completions (random_components).', '6 C05'),
+    'C06': (OT, 'C+A', 'public RandomGen.sample exhausted against the exhaustively enumerated accepted set; solution_count '
+                       'metric against the solver-established number of valid sequences',
+            'Asking the real RandomGen for more than exist returns exactly the accepted candidate set and stops; for designs '
+            'without rejection the reported solution_count equals |models(R)| (z3-proved equal to the accepted set).',
+            'As C04.', '6 C06'),
+    'C07': (OT, 'C+A', 'exhaustive RandomGen image vs the real compiled formula: incremental SAT under assumptions for every '
+                       'RandomGen sequence; SMT exists-aux F(x) & prints-as-no-RandomGen-sequence unsat (closure form)',
+            'Without any reference semantics: every sequence RandomGen can return is a model of the formula IterateSATGen '
+            'solves, and z3 proves the formula has no trial assignment that prints as a sequence outside RandomGen\'s image.',
+            'Bounded to designs with <=5000/60000 candidates accepted by both strategies.', '6 C07'),
+    'C09': (OT, 'C+A', 'SAT enumeration of the real formula and exhaustive candidate enumeration give `available`; the real '
+                       'strategies are called with 4 requested sizes',
+            'IterateSATGen, RandomGen and IterateGen return min(requested, available) pairwise distinct assignments; equal '
+            'prints only within the multiplicity of weighted uncrossed copies.',
+            'The requested count is enumerated (1, n-1, n, n+3); the for-any-solver distinctness is the blocking-clause '
+            'query of C27.', '6 C09'),
     'C10': (TV, 'A', 'SMT/SAT equivalence of the real cardinality CNF against pseudo-Boolean reference; '
                      'definability closure for exists-aux; uniqueness miter',
             'For every n<=10 (thorough 20), k<=n+3, EQ/LT/GT and three variable-list shapes, the clause list from the real '
